@@ -34,7 +34,12 @@ void reset(Env *env) {
   g_lock.clear();
 }
 
-int pid_of(int proc) { return 1000 + 7 * proc; }
+// pids are chosen so that some host strings are proper prefixes of others (simhost:12 / simhost:123 / simhost:1234):
+// a restart pattern must match hosts exactly
+int pid_of(int proc) {
+  static const int pids[] = {1, 12, 123, 1234, 77, 771, 7712, 45, 451};
+  return proc >= 0 && proc < 9 ? pids[proc] : 9000 + proc;
+}
 std::string host_of(int proc) { return "simhost:" + std::to_string(pid_of(proc)); }
 int lock_mode_of(int proc) { auto it = g_lock.find(proc); return it == g_lock.end() ? 0 : it->second; }
 int lock_holders() { return (int)g_lock.size(); }
